@@ -25,6 +25,18 @@ inductive Rhs
   | msgLen                   -- `static_cast<unsigned>(message_.size())`
   deriving DecidableEq, Repr
 
+/-- how a static cell is declared: the model assumes that every load of a cell reads memory and every store writes it
+    (no value cached in a register across a signal delivery) — which is what `volatile` (for `stop_`) or
+    `std::atomic` (for the others) provides -/
+structure CellDecl where
+  isVolatile : Bool
+  isAtomic : Bool
+  base : String
+  deriving DecidableEq, Repr
+
+/-- the modelled assumption "loads read memory, stores write memory" holds for a cell declared like this -/
+def CellDecl.accessesMemory (d : CellDecl) : Bool := d.isVolatile || d.isAtomic
+
 inductive IntrArg | this | null
   deriving DecidableEq, Repr
 
